@@ -66,6 +66,14 @@ const (
 	allocStreamLimit = "Stream.Decode/limit"
 )
 
+func (a *allocJudge) boundFor(tg target, api string, n int) uint64 {
+	bound := allocBound(tg, n)
+	if api == allocStreamLimit {
+		bound += 4096 + 512 // the Stream's own bufio.Reader
+	}
+	return bound
+}
+
 // measure decodes b into tg through api under the allocation meter.
 func (a *allocJudge) measure(api string, b []byte, tg target, class string) {
 	c := a.c
@@ -76,26 +84,50 @@ func (a *allocJudge) measure(api string, b []byte, tg target, class string) {
 	}
 	var err error
 	var p interface{}
-	ptr := reflect.New(tg.typ)
-	iface := ptr.Interface()
-	var rd *bytes.Reader
-	if api != allocDecodeBytes {
-		rd = bytes.NewReader(b)
-	}
-	got := allocOf(func() {
-		p = guarded(func() {
-			switch api {
-			case allocDecodeBytes:
-				err = rlp.DecodeBytes(b, iface)
-			case allocStream:
-				err = rlp.NewStream(rd, 0).Decode(iface)
-			case allocStreamLimit:
-				err = rlp.NewStream(plainSrc{rd}, uint64(len(b))).Decode(iface)
-			}
+	var ptr reflect.Value
+	var iface interface{}
+	once := func() uint64 {
+		ptr = reflect.New(tg.typ)
+		iface = ptr.Interface()
+		var rd *bytes.Reader
+		if api != allocDecodeBytes {
+			rd = bytes.NewReader(b)
+		}
+		got := allocOf(func() {
+			p = guarded(func() {
+				switch api {
+				case allocDecodeBytes:
+					err = rlp.DecodeBytes(b, iface)
+				case allocStream:
+					err = rlp.NewStream(rd, 0).Decode(iface)
+				case allocStreamLimit:
+					err = rlp.NewStream(plainSrc{rd}, uint64(len(b))).Decode(iface)
+				}
+			})
 		})
-	})
-	if got >= a.base {
-		got -= a.base
+		if got >= a.base {
+			got -= a.base
+		}
+		return got
+	}
+	got := once()
+	// The meter is the process-wide TotalAlloc: a runtime or harness goroutine
+	// that allocates during the window (timers, the child's log writer, a pool
+	// refilled after a GC) is charged to the decode. What the decoder allocates
+	// for one input is deterministic, so an excess of noise size is re-measured
+	// and the smallest reading is judged; a real over-allocation shows in every
+	// reading. Excesses beyond 64 KiB are judged at once (never repeat a huge
+	// allocation with the GC off).
+	if bd := a.boundFor(tg, api, len(b)); got > bd && got-bd < 64<<10 && p == nil {
+		c.Count("alloc_remeasured")
+		for i := 0; i < 4 && got > bd; i++ {
+			if g := once(); g < got {
+				got = g
+			}
+		}
+		if got <= bd {
+			c.Count("alloc_first_reading_was_noise")
+		}
 	}
 	c.Count("alloc_measured")
 	if class != "" {
@@ -104,10 +136,7 @@ func (a *allocJudge) measure(api string, b []byte, tg target, class string) {
 	if p != nil {
 		c.ViolateInput("panic", api, tg.name+":"+panicClass(p), fmt.Sprintf("decoding %s into %v panicked: %v", hxShort(b), tg.typ, p), witness{Input: hxShort(b), Target: tg.name, API: api})
 	}
-	bound := allocBound(tg, len(b))
-	if api == allocStreamLimit {
-		bound += 4096 + 512 // the Stream's own bufio.Reader
-	}
+	bound := a.boundFor(tg, api, len(b))
 	if got > a.stats.maxAlloc {
 		a.stats.maxAlloc, a.stats.maxAllocLen, a.stats.maxAllocTg = got, len(b), tg.name
 	}
